@@ -33,7 +33,7 @@ def run(ctx):
                               dict(gen="g2", count=15 * k, modes=["spacetime"], nexec=2, reference=True, opts={"order": "perm"}),
                               dict(gen="g3", count=50 * k, modes=["spacetime"], nexec=2, reference=True),
                               dict(gen="g3x", count=30 * k, modes=["spacetime"], nexec=2, reference=True),
-                              dict(gen="g4", count=70 * k, modes=["spacetime"], nexec=2, reference=True)])
+                              dict(gen="g4", count=(150 if k == 1 else 560), modes=["spacetime"], nexec=2, reference=True)])
     keep = []
     for r in recs:
         if r["ok"] and c06.flattened_stamp_vars(r["yaml"]):
